@@ -33,7 +33,8 @@ FLOORS = {'aggregate_evaluations': 3000, 'two_dimensional': 200,
           'same_cells_twice': 300, 'library_calls_monitored': 100,
           'absolute_rectangles': 100, 'big_rectangles': 6,
           'big_integer_cases': 50, 'zero_valued_rectangles': 6,
-          'derived_models': 20, 'float_lookalike_text_cases': 50}
+          'derived_models': 20, 'float_lookalike_text_cases': 50,
+          'placed_rectangle_cases': 500}
 ANCHOR_FUNCS = {
     'xlcalculator/xlfunctions/math.py': ['SUM', 'SUMPRODUCT'],
     'xlcalculator/xlfunctions/statistics.py': ['AVERAGE', 'MIN', 'MAX',
@@ -430,6 +431,72 @@ def run(ctx):
         if len(B.items) > 250:
             B.flush(judge)
     B.flush(judge)
+
+    # ---- where a rectangle sits: blocks that start at other columns than A
+    # (E:H, F:I, G:H, M:P, W:Z ...), on the formula's own sheet and on another
+    # one; a range on ANOTHER sheet followed by unqualified references (they
+    # mean the formula's own sheet); SUMPRODUCT of rectangles that start at
+    # different columns (multiplies cell by cell in reading order) -----------
+    starts = [1, 5, 6, 7, 13, 15, 21, 23, 30, 31]
+    for it_ in range((600 if thorough else 48) // ctx.nshards):
+        cols, rows = rng.randint(2, 4), rng.randint(1, 3)
+        cells = {}
+
+        def block(sheet, c0, r0):
+            m = [numbers(rng, cols) for _r in range(rows)]
+            for i, row in enumerate(m):
+                for j, v in enumerate(row):
+                    cells[(sheet, c0 + j, r0 + i)] = v
+            return ('rng', None if sheet == S else sheet, c0, r0,
+                    c0 + cols - 1, r0 + rows - 1, F4)
+        s_a, s_b = rng.sample(starts, 2)
+        own1 = block(S, s_a, 1)
+        own2 = block(S, s_b, 7)
+        oth1 = block('Data2', s_b, 1)
+        oth2 = block('Data2', s_a, 7)
+        lone = ('ref', None, 40, 1, False, False)        # AN1 on either sheet
+        cells[(S, 40, 1)] = 1000.5
+        cells[('Data2', 40, 1)] = -77.25
+        forms = []
+        for f in ('SUM', 'AVERAGE', 'MAX', 'MIN', 'COUNT'):
+            forms += [('call', f, [oth1, lone]), ('call', f, [lone, oth1]),
+                      ('call', f, [oth1, own1]), ('call', f, [oth2, own2,
+                                                               lone])]
+        forms += [('call', 'SUMPRODUCT', [own1, own2]),
+                  ('call', 'SUMPRODUCT', [oth1, own1]),
+                  ('call', 'SUMPRODUCT', [own2, oth2]),
+                  ('call', 'SUMPRODUCT', [oth1, oth2]),
+                  ('bin', '+', ('call', 'SUM', [oth1]), lone),
+                  ('bin', '-', ('call', 'SUMPRODUCT', [own1, oth2]),
+                   ('call', 'SUM', [own1]))]
+        wb = ref.Workbook(cells)
+        inputs = {f'{s_}!{ref.col_letters(c)}{r}': v
+                  for (s_, c, r), v in cells.items()}
+        texts = ['=' + ref.render(a) for a in forms]
+        outs = subject.eval_batch(texts, inputs, sheet=S)
+        for ast, text, got in zip(forms, texts, outs):
+            try:
+                want = ('value', ref.to_norm(wb.eval(ast, S)))
+            except ref.Undecided:
+                continue
+            f = ast[1] if ast[0] == 'call' else 'mixed'
+            ctx.event('aggregate_evaluations')
+            ctx.event('placed_rectangle_cases')
+            if f == 'SUMPRODUCT':
+                ctx.event('sumproduct_cases')
+            ctx.case(('placed', f, s_a, s_b, cols, rows, text[:40]))
+            ok = got == want or (
+                got[0] == 'value' and got[1][0] == 'num' and want[1][0] == 'num'
+                and abs(got[1][1] - want[1][1]) <= 1e-9 * max(
+                    1.0, abs(want[1][1])))
+            if not ok:
+                ctx.fail(f'{text} (on {S}; blocks of {rows}x{cols} starting '
+                         f'at columns {ref.col_letters(s_a)} and '
+                         f'{ref.col_letters(s_b)} on {S} and Data2): observed '
+                         f'{got}, reference {want[1]}',
+                         {'formula': text, 'cells': inputs, 'observed': got,
+                          'reference': want[1]}, monitor='reference-fold',
+                         group=f'placed:{f}:{got[0]}')
 
     # ---- the same range again after one of its cells has been changed ---------
     from xlcalculator import Evaluator
